@@ -128,6 +128,7 @@ func VerifH_C13_readfrom_roundtrip() {
 	verif.Assert(err == nil, "NextWriter")
 	src := &fakeReader{data: data, fail: -1}
 	src.chunk = [3]int{0, 1, 3}[verif.Choose(3)]
+	src.eofWithData = verif.Bool() // a reader may return its last bytes together with io.EOF
 	n, err := wr.(io.ReaderFrom).ReadFrom(src)
 	verif.Assert(err == nil && n == int64(len(data)), "ReadFrom consumed everything")
 	verif.Assert(wr.Close() == nil, "Close")
